@@ -7,6 +7,7 @@
 import MotoModel.Model.DiskCli
 import MotoModel.Gen.Cli
 import MotoModel.Proofs.PathSpelling
+import MotoModel.Proofs.Argparse
 namespace Moto.C19
 open Moto
 
@@ -201,5 +202,98 @@ theorem archive_name_rule (fl : Flavour) (a : Str) :
           (by simp only [List.mem_cons, List.mem_nil_iff, or_false, not_or]; exact ⟨fun e => hx e.symm, fun e => hy e.symm⟩)
         rw [hq]
         rw [if_pos (by simp [lower, Tape.str, hlx, hly])]
+
+/-! ### the command line: every argument list, through the model of argparse (Model/Argparse.lean) -/
+
+open Moto.Argparse in
+/-- how each tool's `run()` reads its command line (from the AST of `run`): the disk archivers take what the parser does not
+    recognise as further sources provided it is `--eos` or does not start with '-'; every other tool calls `parse_args()` -/
+theorem parse_modes : ∀ t ∈ Gen.Cli.tools,
+    (t.name = Tape.str "moto_sdar" ∨ t.name = Tape.str "moto_fdar" → t.parseMode = .knownThenEosFilter) ∧
+    (¬(t.name = Tape.str "moto_sdar" ∨ t.name = Tape.str "moto_fdar") → t.parseMode = .strict) := by decide
+
+open Moto.Argparse in
+/-- the parsers have the shape the model is exact for (options without value or with one, positionals `x` then `x*`), and no
+    positional belongs to the exclusive group -/
+theorem parsers_in_modelled_shape : ∀ t ∈ Gen.Cli.tools,
+    wellShaped t = true ∧ (∀ a ∈ t.actions, a.opts.isEmpty = true → a.inGroup = false) := by decide
+
+open Moto.Argparse in
+/-- **C19 (unknown option)**: for every tool and *every* command line, an argument string before any `--` that the tool's
+    parser takes for an option it does not know is never accepted: the run ends with the usage error (status 2) — or with the
+    help text if a help option is met first — before the tool does anything.  For the disk archivers the one exception is
+    the documented `--eos` marker (any letter case). -/
+theorem unknown_option_rejected : ∀ t ∈ Gen.Cli.tools, ∀ (pre : List Str) (s : Str) (post : List Str),
+    dashdash ∉ pre → s ≠ dashdash → classify t s = .unknown → (t.parseMode = .knownThenEosFilter → upper s ≠ eosWord) →
+    ∀ ns ex, cliParse t (pre ++ s :: post) ≠ .ok ns ex :=
+  fun t _ pre s post hp hs hc hm ns ex => cliParse_unknown t pre s post hp hs hc hm ns ex
+
+open Moto.Argparse in
+/-- **C19 (two actions at once)**: for every tool and every command line, two option strings (before any `--`) that name two
+    different options of the exclusive group — `-c … -t`, `--create … --extract`, in any position, whatever else is on
+    the line — are never accepted. -/
+theorem two_actions_rejected : ∀ t ∈ Gen.Cli.tools, ∀ (argv pre1 post1 pre2 post2 : List Str) (s1 s2 : Str) (b1 b2 : Gen.Cli.Action),
+    argv = pre1 ++ s1 :: post1 → argv = pre2 ++ s2 :: post2 → dashdash ∉ pre1 → dashdash ∉ pre2 →
+    findOpt t s1 = some b1 → findOpt t s2 = some b2 → b1.inGroup = true → b2.inGroup = true → b1.opts ≠ b2.opts →
+    ∀ ns ex, cliParse t argv ≠ .ok ns ex := by
+  intro t ht argv pre1 post1 pre2 post2 s1 s2 b1 b2 h1 h2 hp1 hp2 f1 f2 g1 g2 hne ns ex
+  have hshape := (parsers_in_modelled_shape t ht).2
+  have hn := actions_share_dest t ht
+  -- an option string found in the table starts with '-' and is not `--` (facts of the generated tables)
+  have hfacts : ∀ u ∈ Gen.Cli.tools, ∀ p ∈ optionMap u, p.1.head? = some dash ∧ p.1 ≠ dashdash := by decide
+  have hmem : ∀ (s : Str) (b : Gen.Cli.Action), findOpt t s = some b → (s.head? = some dash ∧ s ≠ dashdash) ∧ b ∈ t.actions := by
+    intro s b hf
+    unfold findOpt at hf
+    cases hfind : (optionMap t).find? (fun p => p.1 == s) with
+    | none => rw [hfind] at hf; simp at hf
+    | some p =>
+      rw [hfind] at hf
+      simp only [Option.map_some, Option.some.injEq] at hf
+      have hp := List.mem_of_find?_eq_some hfind
+      have he : p.1 = s := by simpa using List.find?_some hfind
+      refine ⟨by rw [← he]; exact hfacts t ht p hp, ?_⟩
+      subst hf
+      unfold optionMap at hp
+      simp only [List.mem_flatMap, List.mem_map] at hp
+      obtain ⟨a, ha, o, _, rfl⟩ := hp
+      exact ha
+  obtain ⟨⟨hd1, hs1⟩, hb1⟩ := hmem s1 b1 f1
+  obtain ⟨⟨hd2, hs2⟩, hb2⟩ := hmem s2 b2 f2
+  exact cliParse_two_actions t hshape argv pre1 post1 pre2 post2 s1 s2 b1 b2 h1 h2 hp1 hp2 hs1 hs2 hd1 hd2 f1 f2
+    ⟨g1, (hn b1 hb1 g1).2⟩ ⟨g2, (hn b2 hb2 g2).2⟩ hne ns ex
+
+open Moto.Argparse in
+/-- **C19 (missing action)**: for the three archivers and every command line on which no argument string reaches an option of
+    the required group (no string is one of its option strings, none is a cluster of single-dash flags), the run is never
+    accepted. -/
+theorem missing_action_rejected : ∀ t ∈ Gen.Cli.tools, t.groupRequired = true → ∀ (argv : List Str),
+    (∀ s ∈ argv, NoGroupStr t s) → ∀ ns ex, cliParse t argv ≠ .ok ns ex :=
+  fun t ht hreq argv hall ns ex => cliParse_no_action t hreq (parsers_in_modelled_shape t ht).2 argv hall ns ex
+
+open Moto.Argparse in
+/-- the three archivers are the tools with a required group -/
+theorem archivers_require_an_action : ∀ t ∈ Gen.Cli.tools,
+    (t.groupRequired = true ↔ t.name ∈ [Tape.str "moto_tar", Tape.str "moto_sdar", Tape.str "moto_fdar"]) := by decide
+
+section examples
+open Moto.Argparse
+
+def toolNamed (n : String) : Gen.Cli.Tool :=
+  (Gen.Cli.tools.find? (fun t => t.name == Tape.str n)).getD { name := [], allowAbbrev := false, groupRequired := false, parseMode := .other, actions := [] }
+
+/-- the hypotheses are met by ordinary strings: `--bogus` and `-z` are unknown to every tool; `--eos` is unknown to the parser of
+    the disk archivers (and accepted by their `run()`) -/
+example : ∀ t ∈ Gen.Cli.tools, classify t (Tape.str "--bogus") = .unknown ∧ classify t (Tape.str "-z") = .unknown := by decide +kernel
+example : classify (toolNamed "moto_fdar") (Tape.str "--eos") = .unknown := by decide +kernel
+/-- the documented spelling of F19 is accepted, the marker and the sources in the order given -/
+example : cliParse (toolNamed "moto_fdar") [Tape.str "-c", Tape.str "d.fd", Tape.str "a.dat", Tape.str "--eos", Tape.str "b.dat"] =
+    .ok [(Tape.str "archive", .str (Tape.str "d.fd")), (Tape.str "sources", .list [Tape.str "a.dat", Tape.str "--eos", Tape.str "b.dat"]),
+         (Tape.str "action", .str (Tape.str "create")), (Tape.str "verbose", .bool false), (Tape.str "into", .none)] [] := by decide +kernel
+example : cliParse (toolNamed "moto_tar") [Tape.str "-c", Tape.str "-t", Tape.str "a.k7"] = .error := by decide +kernel
+example : cliParse (toolNamed "moto_tar") [Tape.str "a.k7", Tape.str "b.dat"] = .error := by decide +kernel
+example : cliParse (toolNamed "moto_nl") [Tape.str "-i5", Tape.str "--bogus", Tape.str "p.lst"] = .error := by decide +kernel
+example : cliParse (toolNamed "moto_nl") [Tape.str "-hz"] = .error := by decide +kernel
+example : cliParse (toolNamed "moto_nl") [Tape.str "--bogus", Tape.str "-h"] = .help := by decide +kernel
+end examples
 
 end Moto.C19
